@@ -284,4 +284,75 @@ func runC15(e *Engine, r *Report) {
 		})
 	}
 	r.floor("TAINT-chunk-path", nLoads, 2)
+	ruleChunkFileSync(e, r)
+	// ---- a chunk the incremental validator rejects ends the stream: the
+	// stream position was already advanced by record(), so unless tracking is
+	// dropped the remaining chunks are accepted and the final Validate() -
+	// which does not re-check the consumed block - lets the incomplete file
+	// be finalized. From the rejecting edge every path to return drops the
+	// tracked stream.
+	if al := r.need("(*internal/transport.Chunk).addLocked"); al != nil {
+		addChunk := e.Func("(*internal/rsm.SnapshotValidator).AddChunk")
+		reset := e.Func("(*internal/transport.Chunk).reset")
+		resetL := e.Func("(*internal/transport.Chunk).resetLocked")
+		isDrop := func(in ssa.Instruction) bool {
+			switch c := in.(type) {
+			case *ssa.Call:
+				return (reset != nil && e.CallsTo(c, reset)) || (resetL != nil && e.CallsTo(c, resetL))
+			case *ssa.Defer:
+				return (reset != nil && e.CallsTo(c, reset)) || (resetL != nil && e.CallsTo(c, resetL))
+			}
+			return false
+		}
+		n := 0
+		for _, b := range al.Blocks {
+			if len(b.Instrs) == 0 {
+				continue
+			}
+			ifi, ok := b.Instrs[len(b.Instrs)-1].(*ssa.If)
+			if !ok {
+				continue
+			}
+			// the rejecting edge of `validator.AddChunk(..)`
+			var rej *ssa.BasicBlock
+			for _, f := range expandFacts([]Fact{{ifi.Cond, true}}) {
+				if c, isC := f.V.(*ssa.Call); isC && methodNamed(c, "AddChunk") && !f.Pol {
+					rej = b.Succs[0]
+				}
+			}
+			for _, f := range expandFacts([]Fact{{ifi.Cond, false}}) {
+				if c, isC := f.V.(*ssa.Call); isC && methodNamed(c, "AddChunk") && !f.Pol {
+					rej = b.Succs[1]
+				}
+			}
+			if rej == nil || len(rej.Instrs) == 0 {
+				continue
+			}
+			n++
+			found := false
+			if !isDrop(rej.Instrs[0]) {
+				if isReturn(rej.Instrs[0]) {
+					found = true
+				} else {
+					found = e.findPath(al, rej.Instrs[0], isReturn, isDrop, nil).Found
+				}
+			}
+			r.check(!found, "MPT-chunk-reject-drops", "a chunk rejected by the incremental validator drops the tracked stream in addLocked", e.ipos(ifi),
+				"the corrupt stream is no longer tracked: its remaining chunks are ignored and it cannot be finalized",
+				"after the incremental validator rejected a chunk the stream stays tracked with its position already advanced: the following chunks are accepted and the incomplete file can be finalized")
+		}
+		_ = addChunk
+		r.floor("MPT-chunk-reject-drops", n, 1)
+	}
+}
+
+// methodNamed: the call is a (static or interface) call of a method/function named name.
+func methodNamed(c *ssa.Call, name string) bool {
+	if c.Call.IsInvoke() {
+		return c.Call.Method.Name() == name
+	}
+	if sc := c.Call.StaticCallee(); sc != nil {
+		return sc.Name() == name
+	}
+	return false
 }
